@@ -347,6 +347,8 @@ Verdict(e) ==
     [] e.ev = "tfrt"   -> VTfrt(e)
     [] e.ev = "tfanchor" -> VTfAnchor(e)
     [] e.ev = "mat"    -> VMat(e)
+    \* (a C07 run reuses the C18 family for its totality events only: accuracy is not C07's business)
+    [] e.ev \in {"cbrt", "pow", "exp"} /\ e.p = "C07" -> OK
     [] e.ev = "cbrt"   -> VCbrt(e)
     [] e.ev = "pow"    -> VPow(e)
     [] e.ev = "exp"    -> VExp(e)
